@@ -316,8 +316,11 @@ class Check(object):
         ev = {'property_id': self.pid, 'tier': self.tier, 'seed': self.seed, 'level': 'proof',
               'coverage': cov, 'assumptions': self.assumptions,
               'wall_s': round(time.time() - self.t0, 2), 'violations': violations}
-        os.makedirs(os.path.join(VERIF, 'evidence'), exist_ok=True)
-        with open(os.path.join(VERIF, 'evidence', self.pid + '.json'), 'w') as f:
+        # development runs (--skip-proof) never overwrite the committed evidence
+        ev_dir = os.path.join(VERIF, 'evidence') if not getattr(self, 'dev_run', False) \
+            else os.path.join(SCRATCH_ROOT, 'evidence-dev')
+        os.makedirs(ev_dir, exist_ok=True)
+        with open(os.path.join(ev_dir, self.pid + '.json'), 'w') as f:
             json.dump(ev, f, indent=1, sort_keys=True, default=str)
         if self.gen_broken:
             lines.append('NOTE: property=%s translation tie unavailable for the current source; decided by the '
